@@ -279,6 +279,11 @@ def generate(run_seed, tier):
     d = st('data')
     family = d.choice(WEIGHT_FAMILIES)
     weights = gen_weights(d, N, family)
+    if c.random() < 0.3:
+        # weights that do not sum to one (PolyChord scales them to a maximum
+        # of one, a MultiNest mode holds its share of the total)
+        k_ = 10 ** d.uniform(-3, 2)
+        weights = [w_ * k_ for w_ in weights]
     samples_u = [[d.uniform(0.02, 0.98) for _ in fit] for _ in range(N)]
     if c.random() < 0.1 and N >= 3:
         # a sharply peaked posterior: neighbouring samples agree to ~1e-6
